@@ -119,7 +119,7 @@ func VerifHarness_C16_bind_once() {
 // Allocation life cycle in the manager: timer armed with the granted lifetime, expiry and
 // DeleteAllocation release everything exactly once, events pair up.
 //
-//verif:props=C06,C15,C04,C18 replay=model bounds="all lifetimes (int64 ns > 0); UDP allocation with 2+ permissions and up to 3 bindings built by real calls; deletion by expiry or by DeleteAllocation, twice"
+//verif:props=C06,C15,C04,C18 replay=model bounds="all lifetimes (int64 ns > 0); UDP allocation with 2+ permissions and up to 3 bindings built by real calls; deletion by expiry or by DeleteAllocation, twice; the relay socket's Close may report an error"
 func VerifHarness_C06_create_expire() {
 	env := VNewManager(false, false)
 	m := env.M
@@ -172,6 +172,9 @@ func VerifHarness_C06_create_expire() {
 	vAssert(vTimerDeadline(a.lifetimeTimer) == c1+int64(lt2), "C06.refresh_counts_from_now")
 	armedBefore := vArmedTimers()
 	vAssert(armedBefore == 1+nPerm+nChan, "C15.timers_are_exactly_those_of_live_state")
+	if vBool() {
+		env.Relays[0].CloseErr = net.ErrClosed // closing the relay socket may report an error: teardown completes all the same
+	}
 	if vBool() {
 		vFire(a.lifetimeTimer) // expiry
 	} else {
@@ -267,5 +270,39 @@ func VerifHarness_C15_even_port_probe() {
 		vAssert(r.Closed == 1, "C15.every_probe_socket_is_closed_exactly_once")
 	}
 	vAssert(vLocksHeld() == 0, "C18.probe_leaves_no_lock_held")
+	vReach("end")
+}
+
+// Allocation.tcpConnections is "guarded by the AllocationManager lock" (allocation.go): every read and write
+// of the table, including the ones teardown makes, happens with Manager.lock held.
+//
+//verif:props=C18,C15 replay=model bounds="one TCP allocation with one pending peer connection (arbitrary IPv4 peer); then a ConnectionBind lookup, and teardown by DeleteAllocation, by lifetime expiry, by Manager.Close or by the bind deadline"
+func VerifHarness_C18_tcp_connection_table_guarded() {
+	env := VNewManager(false, false)
+	m := env.M
+	ft := VFiveTuple()
+	user := vStr("user")
+	a, err := m.CreateAllocation(ft, &VPacketConn{Name: "turn"}, proto.ProtoTCP, 0, 600*time.Second, user, "realm", proto.RequestedFamilyIPv4)
+	vAssume(err == nil)
+	vGuard(a.tcpConnections, &m.lock, "C18.tcp_connection_table_guarded_by_manager_lock")
+	id, e := m.CreateTCPConnection(a, proto.PeerAddress{IP: VIP4(), Port: VPort()})
+	vAssume(e == nil)
+	tc := a.tcpConnections[id]
+	vAssume(tc != nil)
+	if vBool() {
+		_ = m.GetTCPConnection(user, id)
+	}
+	switch vPick(0, 3) {
+	case 0:
+		m.DeleteAllocation(ft)
+	case 1:
+		vFire(a.lifetimeTimer)
+	case 2:
+		_ = m.Close()
+	case 3:
+		vFire(tc.bindTimer)
+	}
+	vAssert(vLocksHeld() == 0, "C18.teardown_leaves_no_lock_held")
+	vAssert(env.Conns[0].Closed <= 1, "C15.peer_connection_closed_at_most_once")
 	vReach("end")
 }
